@@ -34,11 +34,40 @@ def build_case(chk, rng, tier):
         vals = pgmgen.gen_potential(rng, n, stream)
         pots[cl] = (pa, vals)
         facs[cl] = Factor(dom.project(pa), np.array([pgmgen.flog(v) for v in vals]))
+    folded = None
+    if rng.random() < 0.35 and stream != 'huge':
+        # a potential on a nested clique (preferably inside a separator, so that several maximal cliques contain it), folded into the
+        # maximal-clique vector by the library's own CliqueVector.combine - as estimation does with structural zeros / warm starts.
+        # The model receives the exact product folded into ONE containing clique: the joint is the product of all potentials, each once.
+        seps = [tuple(a for a in c1 if a in c2) for c1 in mcl for c2 in mcl if c1 != c2 and set(c1) & set(c2)]
+        base = rng.choice(seps) if seps and rng.random() < 0.7 else rng.choice(mcl)
+        S = [a for a in base if rng.random() < 0.6] or [base[0]]
+        rng.shuffle(S)
+        nS = 1
+        for a in S:
+            nS *= cfg[a]
+        evals = pgmgen.gen_potential(rng, nS, rng.choice(['small', 'zeros']))
+        extra = Factor(dom.project(S), np.array([pgmgen.flog(v) for v in evals]).reshape([cfg[a] for a in S]))
+        vec = CliqueVector({cl: facs[cl].copy() for cl in mcl})
+        vec.combine(CliqueVector({tuple(S): extra}))
+        facs = {cl: vec[cl] for cl in mcl}
+        host = next(cl for cl in mcl if set(S) <= set(cl))
+        pa, vals = pots[host]
+        import itertools as _it
+        new = []
+        for cell, v in zip(_it.product(*[range(cfg[a]) for a in pa]), vals):
+            sub = [cell[pa.index(a)] for a in S]
+            k = 0
+            for a, x in zip(S, sub):
+                k = k * cfg[a] + x
+            new.append(v * evals[k])
+        pots[host] = (pa, new)
+        folded = dict(clique=list(S), values=[str(v) for v in evals], contained_in=[''.join(cl) for cl in mcl if set(S) <= set(cl)])
     idx = {cl: i for i, cl in enumerate(mcl)}
     nbrs = {cl: sorted(model.neighbors[cl], key=lambda c: idx[c]) for cl in mcl}
     edges = [(i, j) for i in mcl for j in nbrs[i]]
     sched = pgmgen.random_schedule(rng, edges, nbrs)
-    return dict(attrs=attrs, sizes=sizes, cliques=[list(c) for c in cliques], order=order, mode=mode, total=total, stream=stream,
+    return dict(folded=folded, attrs=attrs, sizes=sizes, cliques=[list(c) for c in cliques], order=order, mode=mode, total=total, stream=stream,
                 model=model, mcl=mcl, pots=pots, facs=facs, nbrs=nbrs, sched=sched, ids=ids, code_sched=list(model.message_order))
 
 
@@ -81,7 +110,7 @@ def run_code(case, sched):
 
 
 def jsonable(case, sched=None):
-    return dict(attrs=case['attrs'], sizes=case['sizes'], cliques=case['cliques'], elimination_order=case['order'], total=case['total'],
+    return dict(attrs=case['attrs'], sizes=case['sizes'], cliques=case['cliques'], elimination_order=case['order'], total=case['total'], nested_potential_folded_by_combine=case.get('folded'),
                 potential_stream=case['stream'], model_cliques=[list(c) for c in case['mcl']],
                 potentials={''.join(cl): [case['pots'][cl][0], [str(v) if abs(v) < 10 ** 12 and (v == 0 or abs(v) > Fraction(1, 10 ** 12)) else '2^%d-ish' % round(math.log2(float(abs(v.numerator)) / 1.0) - math.log2(v.denominator) if False else (v.numerator.bit_length() - v.denominator.bit_length())) for v in case['pots'][cl][1]]] for cl in case['mcl']},
                 tree_neighbours={''.join(cl): [''.join(c) for c in case['nbrs'][cl]] for cl in case['mcl']},
